@@ -39,9 +39,12 @@ type Profile struct {
 	// TargetExpiry: deadline-targeted advances also aim at retention ends and
 	// subscription TTLs (otherwise only at lease / delay deadlines)
 	TargetExpiry bool
+	// JobKinds / JobAges override the prune-job domain
+	JobKinds []string
+	JobAges  []time.Duration
 	// AdvScales: random (not deadline-targeted) clock advances
 	AdvScales []time.Duration
-	Prelude             func(t *rapid.T, g *Gen)
+	Prelude   func(t *rapid.T, g *Gen)
 }
 
 type Gen struct {
@@ -451,7 +454,14 @@ func (g *Gen) Next() Op {
 			if !p.AllowPruneCompleted {
 				kindsJ = JobKinds[1:]
 			}
-			return Op{K: k, Job: rapid.SampledFrom(kindsJ).Draw(t, "job"), D: int64(rapid.SampledFrom([]time.Duration{0, time.Second, time.Hour}).Draw(t, "minage")), Batch: rapid.SampledFrom([]int{1, 3, 100}).Draw(t, "batch")}
+			if len(p.JobKinds) > 0 {
+				kindsJ = p.JobKinds
+			}
+			ages := []time.Duration{0, time.Second, time.Hour}
+			if len(p.JobAges) > 0 {
+				ages = p.JobAges
+			}
+			return Op{K: k, Job: rapid.SampledFrom(kindsJ).Draw(t, "job"), D: int64(rapid.SampledFrom(ages).Draw(t, "minage")), Batch: rapid.SampledFrom([]int{1, 3, 100}).Draw(t, "batch")}
 		case OpSweep:
 			return Op{K: k, Batch: 1000}
 		case OpExpireSubs:
